@@ -180,7 +180,488 @@ static std::string run_roundtrip(const CaseSpec &cs, int which, const std::vecto
   return "";
 }
 
+// ------------------------------------------------------------------------------------------------
+// helpers shared by C04 / C10 / C12 / C07
+static const draco::PointAttribute *att_by_uid(const draco::PointCloud &pc, uint32_t uid) {
+  const int id = pc.GetAttributeIdByUniqueId(uid);
+  return id < 0 ? nullptr : pc.attribute(id);
+}
+static std::vector<int> mask_types(uint32_t mask) {
+  std::vector<int> t;
+  for (int i = 0; i < 5; ++i)
+    if (mask & (1u << i)) t.push_back(i);
+  return t;
+}
+static bool is_lossy(const CaseSpec &cs, int ai) {
+  const AttSpec &a = cs.g.atts[ai];
+  return a.dtype == draco::DT_FLOAT32 && cs.o.opt_for(cs.g, ai).qbits > 0;
+}
+static std::string fbits(float f) {
+  uint32_t b;
+  memcpy(&b, &f, 4);
+  char buf[48];
+  snprintf(buf, sizeof buf, "%.9g(0x%08x)", f, b);
+  return buf;
+}
+
+// C10: decode with a skip set and compare with the ordinary decode of the same bytes.
+static std::string compare_skip(const CaseSpec &cs, const EncodeResult &er, const draco::PointCloud &N,
+                                const draco::PointCloud &S, uint32_t mask) {
+  const bool kd = er.geometry_type == 0 && er.method == 1;
+  if (N.num_points() != S.num_points()) return "point count differs with skip set " + std::to_string(mask);
+  if (N.num_attributes() != S.num_attributes()) return "attribute count differs with skip set " + std::to_string(mask);
+  if (er.geometry_type == 1) {
+    const auto &mn = static_cast<const draco::Mesh &>(N);
+    const auto &ms = static_cast<const draco::Mesh &>(S);
+    if (mn.num_faces() != ms.num_faces()) return "face count differs with skip set";
+    for (uint32_t f = 0; f < mn.num_faces(); ++f)
+      for (int k = 0; k < 3; ++k)
+        if (mn.face(FaceIndex(f))[k] != ms.face(FaceIndex(f))[k]) return "connectivity differs with skip set " + std::to_string(mask);
+  }
+  for (int i = 0; i < N.num_attributes(); ++i) {
+    const draco::PointAttribute *n = N.attribute(i), *sa = S.attribute(i);
+    const std::string who = "attribute #" + std::to_string(i) + " (uid " + std::to_string(n->unique_id()) + ", skip set " + std::to_string(mask) + "): ";
+    if (n->attribute_type() != sa->attribute_type()) return who + "attribute type differs";
+    if (n->unique_id() != sa->unique_id()) return who + "skipped decode returns unique id " + std::to_string(sa->unique_id());
+    int ai = -1;
+    for (size_t k = 0; k < cs.g.atts.size(); ++k)
+      if (cs.g.atts[k].unique_id == n->unique_id()) ai = static_cast<int>(k);
+    if (ai < 0) return who + "unknown unique id";
+    const bool in_k = (mask >> n->attribute_type()) & 1;
+    const bool lossy = is_lossy(cs, ai);
+    uint8_t bn[256], bs[256];
+    if (in_k && !lossy && draco::IsDataTypeIntegral(n->data_type()) && sa->data_type() != n->data_type()) {
+      // An integer attribute of a skipped type carries no transform. The decoders hand out its int32 working copy
+      // in this case (same integers, widened); the statement of C10 only fixes the values, the unique id (checked
+      // above) and the absence of a transform description for it.
+      count("skip_plain_integer_attribute_widened");
+      if (sa->data_type() != draco::DT_INT32 || sa->num_components() != n->num_components())
+        return who + "integer attribute of a skipped type came back with an unexpected descriptor";
+      if (sa->GetAttributeTransformData() != nullptr) return who + "plain integer attribute came back with a transform description";
+      for (uint32_t p = 0; p < N.num_points(); ++p) {
+        int64_t vn[16], vs[16];
+        if (!n->ConvertValue<int64_t>(n->mapped_index(PointIndex(p)), n->num_components(), vn) ||
+            !sa->ConvertValue<int64_t>(sa->mapped_index(PointIndex(p)), n->num_components(), vs))
+          return who + "ConvertValue failed";
+        // the working copy holds the two's-complement 32-bit pattern: compare modulo 2^32
+        for (int c = 0; c < n->num_components(); ++c)
+          if (static_cast<uint32_t>(vn[c]) != static_cast<uint32_t>(vs[c])) return who + "integer value of point " + std::to_string(p) + " changed by the skip option";
+      }
+      continue;
+    }
+    if (!(lossy && in_k)) {
+      if (n->data_type() != sa->data_type() || n->num_components() != sa->num_components() || n->byte_stride() != sa->byte_stride())
+        return who + "descriptor changed although the attribute is not skipped / has no transform";
+      if ((sa->GetAttributeTransformData() != nullptr) != (n->GetAttributeTransformData() != nullptr))
+        return who + "transform data presence differs for an attribute that is not skipped";
+      for (uint32_t p = 0; p < N.num_points(); ++p) {
+        n->GetMappedValue(PointIndex(p), bn);
+        sa->GetMappedValue(PointIndex(p), bs);
+        if (memcmp(bn, bs, n->byte_stride()) != 0) return who + "value of point " + std::to_string(p) + " changed by the skip option";
+      }
+      continue;
+    }
+    count(kd ? "skip_kdtree_quantized" : (n->attribute_type() == GeometryAttribute::NORMAL ? "skip_octahedral" : "skip_quantized"));
+    if (!draco::IsDataTypeIntegral(sa->data_type())) return who + "skipped attribute is not integral";
+    const draco::AttributeTransformData *td = sa->GetAttributeTransformData();
+    if (!td) return who + "skipped attribute has no transform data";
+    GeometryAttribute ga;
+    ga.Init(n->attribute_type(), nullptr, n->num_components(), draco::DT_FLOAT32, false, 4 * n->num_components(), 0);
+    draco::PointAttribute target(ga);
+    target.Reset(sa->size());
+    const bool octa = n->attribute_type() == GeometryAttribute::NORMAL && !kd;
+    RefQuant rq;
+    draco::OctahedronToolBox tb;
+    if (octa) {
+      if (td->transform_type() != draco::ATTRIBUTE_OCTAHEDRON_TRANSFORM) return who + "expected an octahedron transform description";
+      draco::AttributeOctahedronTransform t;
+      if (!t.InitFromAttribute(*sa)) return who + "AttributeOctahedronTransform::InitFromAttribute failed";
+      if (t.quantization_bits() != cs.o.opt_for(cs.g, ai).qbits) return who + "declared octahedral bits differ from the configured ones";
+      if (sa->num_components() != 2) return who + "octahedral attribute must have 2 components";
+      if (!t.InverseTransformAttribute(*sa, &target)) return who + "InverseTransformAttribute failed";
+      tb.SetQuantizationBits(t.quantization_bits());
+    } else {
+      if (td->transform_type() != draco::ATTRIBUTE_QUANTIZATION_TRANSFORM) return who + "expected a quantization transform description";
+      draco::AttributeQuantizationTransform t;
+      if (!t.InitFromAttribute(*sa)) return who + "AttributeQuantizationTransform::InitFromAttribute failed";
+      if (sa->num_components() != n->num_components()) return who + "component count differs";
+      if (!t.InverseTransformAttribute(*sa, &target)) return who + "InverseTransformAttribute failed";
+      rq.bits = t.quantization_bits();
+      rq.mins = t.min_values();
+      rq.range = t.range();
+      // declared parameters = configured / reference ones
+      const Expected e = compute_expected(cs, er.geometry_type, er.method);
+      const RefQuant &want = e.quant[ai];
+      if (want.valid) {
+        if (rq.bits != want.bits) return who + "declared bits " + std::to_string(rq.bits) + " != " + std::to_string(want.bits);
+        if (memcmp(&rq.range, &want.range, 4) != 0) return who + "declared range " + fbits(rq.range) + " != reference " + fbits(want.range);
+        for (int c = 0; c < n->num_components(); ++c)
+          if (memcmp(&rq.mins[c], &want.mins[c], 4) != 0) return who + "declared minimum " + fbits(rq.mins[c]) + " != reference " + fbits(want.mins[c]);
+      }
+    }
+    for (uint32_t p = 0; p < N.num_points(); ++p) {
+      n->GetMappedValue(PointIndex(p), bn);
+      const AttributeValueIndex sv = sa->mapped_index(PointIndex(p));
+      if (sv.value() >= sa->size()) return who + "skipped attribute maps a point to a value that does not exist";
+      target.GetValue(sv, bs);
+      if (memcmp(bn, bs, 4 * n->num_components()) != 0) {
+        return who + "applying the described transform to the skipped integers gives a value that differs from the ordinary decode at point " + std::to_string(p);
+      }
+      // differential: the harness's own dequantizer / the tool box applied to the integers
+      int32_t k[16];
+      sa->GetValue(sv, k);
+      float ref[16];
+      if (octa) {
+        tb.QuantizedOctahedralCoordsToUnitVector(k[0], k[1], ref);
+        if (k[0] < 0 || k[1] < 0 || k[0] > (1 << tb.quantization_bits()) - 2 || k[1] > (1 << tb.quantization_bits()) - 2)
+          return who + "octahedral coordinates outside the q-bit square";
+      } else {
+        for (int c = 0; c < n->num_components(); ++c) ref[c] = rq.dq(k[c], c);
+      }
+      if (memcmp(bn, ref, 4 * n->num_components()) != 0) return who + "reference dequantization of the skipped integers differs from the ordinary decode at point " + std::to_string(p);
+    }
+  }
+  return "";
+}
+
+static std::string run_c10(const CaseSpec &cs, const std::vector<std::string> &gen_classes) {
+  std::unique_ptr<draco::PointCloud> pc = build_geometry(cs.g);
+  EncodeResult er = encode_case(cs, *pc);
+  if (!er.status.ok()) {
+    count("encode_error");
+    return "";
+  }
+  DecodeResult N = decode_bytes(er.bytes);
+  if (!N.status.ok()) {
+    if (open_finding("F19") && f19_signature(er, cs)) return "";
+    return "ordinary decode failed: " + N.status.error_msg_string();
+  }
+  count("encode_ok");
+  classify(cs, er);
+  for (auto &c : gen_classes) count(c);
+  std::set<uint32_t> masks = {cs.skip_mask & 31u, 31u};
+  uint32_t present = 0, lossy_types = 0;
+  for (size_t ai = 0; ai < cs.g.atts.size(); ++ai) {
+    present |= 1u << cs.g.atts[ai].type;
+    if (is_lossy(cs, static_cast<int>(ai))) lossy_types |= 1u << cs.g.atts[ai].type;
+  }
+  for (int t = 0; t < 5; ++t)
+    if (lossy_types & (1u << t)) masks.insert(1u << t);
+  if (g_thorough) for (uint32_t m = 0; m < 32; ++m) masks.insert(m);
+  bool nt = false;
+  for (uint32_t m : masks) {
+    DecodeResult S = decode_bytes(er.bytes, mask_types(m), static_cast<int>(m & 1));
+    if (!S.status.ok()) return "decode with skip set " + std::to_string(m) + " failed: " + S.status.error_msg_string();
+    std::string err = compare_skip(cs, er, *N.geom, *S.geom, m);
+    if (!err.empty()) return err;
+    count("skip_decodes");
+    nt |= (m & lossy_types) != 0;
+  }
+  if (nt) {
+    nontrivial(hash_tokens(to_tokens(cs)));
+    if (cs.g.npoints <= 30) sample(describe_case(cs));
+  }
+  return "";
+}
+
+// C04: error of every decoded quantized float against the original, through the tag attribute.
+static double c04_allow(double x, double mn, double R) {
+  return 8.0 * std::ldexp(1.0, -24) * std::max(std::fabs(x), std::max(std::fabs(mn), R));
+}
+// decoded point -> original point through the tag attribute (last attribute of the spec)
+static std::string tag_map(const CaseSpec &cs, const draco::PointCloud &dec, std::vector<uint32_t> *orig_of) {
+  const AttSpec &tag = cs.g.atts.back();
+  const draco::PointAttribute *t = att_by_uid(dec, tag.unique_id);
+  if (!t || t->data_type() != draco::DT_UINT32 || t->num_components() != 1) return "tag attribute lost";
+  orig_of->resize(dec.num_points());
+  for (uint32_t p = 0; p < dec.num_points(); ++p) {
+    uint32_t v;
+    t->GetMappedValue(PointIndex(p), &v);
+    if (v >= cs.g.npoints) return "tag value out of range after decode";
+    (*orig_of)[p] = v;
+  }
+  return "";
+}
+
+static std::string check_bound(const CaseSpec &cs, const EncodeResult &er, const draco::PointCloud &dec,
+                               const std::vector<uint32_t> &orig_of, bool *nontriv) {
+  const Expected e = compute_expected(cs, er.geometry_type, er.method);
+  for (size_t ai = 0; ai + 1 < cs.g.atts.size(); ++ai) {
+    if (e.kind[ai] != kQuantized) continue;
+    const AttSpec &a = cs.g.atts[ai];
+    const RefQuant &rq = e.quant[ai];
+    if (!rq.valid) return "encode succeeded although no quantization exists (non-finite values)";
+    const draco::PointAttribute *d = att_by_uid(dec, a.unique_id);
+    if (!d || d->data_type() != draco::DT_FLOAT32 || d->num_components() != a.ncomp) return "quantized attribute changed its descriptor";
+    const double R = rq.range;
+    const double step = R / (std::ldexp(1.0, rq.bits) - 1.0);
+    count(rq.bits <= 8 ? "q_1_8" : rq.bits <= 20 ? "q_9_20" : "q_21_30");
+    std::set<std::vector<float>> distinct;
+    for (uint32_t p = 0; p < dec.num_points(); ++p) {
+      float out[16];
+      d->GetMappedValue(PointIndex(p), out);
+      const uint32_t v = a.value_of_point(orig_of[p]);
+      for (int c = 0; c < a.ncomp; ++c) {
+        const double x = a.getf(v, c), y = out[c], mn = rq.mins[c];
+        const double A = c04_allow(x, mn, R);
+        if (!(std::fabs(y - x) <= step / 2 + A)) {
+          return "uid " + std::to_string(a.unique_id) + " component " + std::to_string(c) + ": decoded " + fbits(out[c]) + " for original " +
+                 fbits(a.getf(v, c)) + ", error " + std::to_string(std::fabs(y - x)) + " > half step " + std::to_string(step / 2) + " + allowance " + std::to_string(A) +
+                 " (bits " + std::to_string(rq.bits) + ", range " + fbits(rq.range) + ")";
+        }
+        if (!(y >= mn - A && y <= mn + R + A)) {
+          return "uid " + std::to_string(a.unique_id) + ": decoded " + fbits(out[c]) + " leaves the quantization box [" + fbits(rq.mins[c]) + ", +" + fbits(rq.range) + "]";
+        }
+      }
+      if (distinct.size() < 2) distinct.insert(std::vector<float>(out, out + a.ncomp));
+    }
+    if (distinct.size() >= 2) *nontriv = true;
+  }
+  return "";
+}
+
+static std::string run_c04(const CaseSpec &cs0, const std::vector<std::string> &gen_classes) {
+  CaseSpec cs = cs0;  // the tag attribute is part of the stored spec (added by the generator wrapper)
+  std::unique_ptr<draco::PointCloud> pc = build_geometry(cs.g);
+  EncodeResult er = encode_case(cs, *pc);
+  if (!er.status.ok()) {
+    count("encode_error");
+    count("encode_error:" + status_class(er.status));
+    return "";
+  }
+  DecodeResult N = decode_bytes(er.bytes);
+  if (!N.status.ok()) {
+    if (open_finding("F19") && f19_signature(er, cs)) return "";
+    return "decode failed: " + N.status.error_msg_string();
+  }
+  count("encode_ok");
+  classify(cs, er);
+  for (auto &c : gen_classes) count(c);
+  std::vector<uint32_t> orig_of;
+  std::string err = tag_map(cs, *N.geom, &orig_of);
+  if (!err.empty()) return err;
+  bool nt = false;
+  err = check_bound(cs, er, *N.geom, orig_of, &nt);
+  if (!err.empty()) return err;
+  // declared parameters (through the skip-transform decode) equal the reference / configured ones
+  DecodeResult S = decode_bytes(er.bytes, {0, 1, 2, 3, 4});
+  if (!S.status.ok()) return "skip-transform decode failed: " + S.status.error_msg_string();
+  err = compare_skip(cs, er, *N.geom, *S.geom, 31);
+  if (!err.empty()) return err;
+  if (nt) {
+    nontrivial(hash_tokens(to_tokens(cs)));
+    if (cs.g.npoints <= 24) sample(describe_case(cs));
+  }
+  return "";
+}
+
+// C12: geometry B shares coordinates with A (same explicit box); decoded values of shared coordinates must be
+// bit-identical and lie on the grid.
+struct C12Spec {
+  CaseSpec a, b;
+  int32_t att_a = 0;                    // the explicitly quantized attribute of A (B's is attribute 0)
+  std::vector<uint32_t> b_from_a;       // per value entry of B: index of A's value entry, or 0xffffffff = private
+  template <class Ar>
+  void io(Ar &ar) {
+    ar(a); ar(b); ar(att_a); ar(b_from_a);
+  }
+};
+
+static std::string decode_values_by_entry(const CaseSpec &cs, int ai, std::map<uint32_t, std::vector<float>> *out, EncodeResult *er_out) {
+  std::unique_ptr<draco::PointCloud> pc = build_geometry(cs.g);
+  EncodeResult er = encode_case(cs, *pc);
+  *er_out = er;
+  if (!er.status.ok()) return "ENCODE-ERROR";
+  DecodeResult N = decode_bytes(er.bytes);
+  if (!N.status.ok()) {
+    if (open_finding("F19") && f19_signature(er, cs)) return "ENCODE-ERROR";
+    return "decode failed: " + N.status.error_msg_string();
+  }
+  std::vector<uint32_t> orig_of;
+  std::string err = tag_map(cs, *N.geom, &orig_of);
+  if (!err.empty()) return err;
+  const AttSpec &a = cs.g.atts[ai];
+  const draco::PointAttribute *d = att_by_uid(*N.geom, a.unique_id);
+  if (!d || d->data_type() != draco::DT_FLOAT32) return "quantized attribute missing";
+  for (uint32_t p = 0; p < N.geom->num_points(); ++p) {
+    float v[16];
+    d->GetMappedValue(PointIndex(p), v);
+    const uint32_t entry = a.value_of_point(orig_of[p]);
+    std::vector<float> vv(v, v + a.ncomp);
+    auto it = out->find(entry);
+    if (it == out->end()) {
+      out->emplace(entry, vv);
+    } else if (memcmp(it->second.data(), vv.data(), 4 * a.ncomp) != 0) {
+      return "two points with the same value entry decode differently";
+    }
+  }
+  bool nt = false;
+  err = check_bound(cs, er, *N.geom, orig_of, &nt);
+  return err;
+}
+
+static std::string run_c12(const C12Spec &sp) {
+  std::map<uint32_t, std::vector<float>> da, dbv;
+  EncodeResult ea, eb;
+  std::string err = decode_values_by_entry(sp.a, sp.att_a, &da, &ea);
+  if (err == "ENCODE-ERROR") { count("encode_error"); return ""; }
+  if (!err.empty()) return "A: " + err;
+  err = decode_values_by_entry(sp.b, 0, &dbv, &eb);
+  if (err == "ENCODE-ERROR") { count("encode_error"); return ""; }
+  if (!err.empty()) return "B: " + err;
+  count("encode_ok");
+  const AttSpec &aa = sp.a.g.atts[sp.att_a];
+  const AttOpt &ao = sp.a.o.opt_for(sp.a.g, sp.att_a);
+  RefQuant rq;
+  rq.bits = ao.qbits;
+  rq.mins = ao.origin;
+  rq.mins.resize(aa.ncomp, 0.f);
+  rq.range = ao.range;
+  int shared = 0;
+  for (uint32_t vb = 0; vb < sp.b_from_a.size(); ++vb) {
+    const uint32_t va = sp.b_from_a[vb];
+    if (va == 0xffffffffu) continue;
+    auto ia = da.find(va);
+    auto ib = dbv.find(vb);
+    if (ia == da.end() || ib == dbv.end()) continue;  // entry not used by a decoded point on one side
+    ++shared;
+    if (memcmp(ia->second.data(), ib->second.data(), 4 * aa.ncomp) != 0) {
+      return "shared coordinate decodes to " + fbits(ia->second[0]) + ".. in A but " + fbits(ib->second[0]) + ".. in B (same origin/range/bits)";
+    }
+    for (int c = 0; c < aa.ncomp; ++c) {
+      // grid membership: the value is the dequantization of an integer index in [0, 2^bits - 1]
+      const int32_t k = rq.q(aa.getf(va, c), c);
+      bool on_grid = false;
+      for (int dk = -1; dk <= 1 && !on_grid; ++dk) {
+        const int64_t kk = static_cast<int64_t>(k) + dk;
+        if (kk < 0 || kk > rq.maxq() + 1) continue;  // float32 product may round up to 2^bits at the box edge (DESIGN C04)
+        const float g = rq.dq(static_cast<int32_t>(kk), c);
+        on_grid = memcmp(&g, &ia->second[c], 4) == 0;
+      }
+      if (!on_grid) return "decoded value " + fbits(ia->second[c]) + " is not on the grid origin + k*range/(2^bits-1)";
+    }
+  }
+  const char *ma = ea.geometry_type == 1 ? (ea.method ? "eb" : "mseq") : (ea.method ? "kd" : "pseq");
+  const char *mb = eb.geometry_type == 1 ? (eb.method ? "eb" : "mseq") : (eb.method ? "kd" : "pseq");
+  count(std::string("pair_") + ma + "_" + mb);
+  count(rq.bits <= 8 ? "q_1_8" : rq.bits <= 20 ? "q_9_20" : "q_21_30");
+  if (shared >= 2) {
+    nontrivial(hash_tokens(to_tokens(sp)));
+    if (sp.a.g.npoints <= 16) sample("{\"A\":" + describe_case(sp.a) + ",\"B\":" + describe_case(sp.b) + ",\"shared_coordinates\":" + std::to_string(shared) + "}");
+    count("pairs_with_2plus_shared");
+  }
+  return "";
+}
+
+static bool gen_c12(C12Spec *sp, std::vector<std::string> *classes) {
+  GenCfg cfg;
+  cfg.thorough = g_thorough;
+  cfg.lossy_focus = true;
+  cfg.allow_large = false;
+  cfg.max_extra_atts = 2;
+  sp->a = gen_case(cfg, classes);
+  CaseSpec &A = sp->a;
+  // pick a float attribute and make its quantization explicit
+  int fa = -1;
+  for (size_t ai = 0; ai < A.g.atts.size(); ++ai) {
+    const AttSpec &a = A.g.atts[ai];
+    if (a.dtype == draco::DT_FLOAT32 && A.o.opt_for(A.g, static_cast<int>(ai)).qbits > 0 && a.nvalues > 0 &&
+        !(a.type == GeometryAttribute::NORMAL)) fa = static_cast<int>(ai);
+  }
+  if (fa < 0) return false;
+  if (A.o.api == 0) {
+    int same = 0;
+    for (auto &a : A.g.atts) same += a.type == A.g.atts[fa].type;
+    if (same > 1) A.o.api = 1;  // per-type options cannot hold one box per attribute
+    if (A.o.api == 1) {
+      // keep the option values: copy the per-type options to the per-attribute table
+      for (size_t ai = 0; ai < A.g.atts.size(); ++ai) A.o.per_att[ai] = A.o.per_type[A.g.atts[ai].type];
+    }
+  }
+  {
+  AttOpt &ao = A.o.api == 1 ? A.o.per_att[fa] : A.o.per_type[A.g.atts[fa].type];
+  bool finite = true;
+  for (uint32_t v = 0; v < A.g.atts[fa].nvalues; ++v)
+    for (int c = 0; c < A.g.atts[fa].ncomp; ++c) finite &= std::isfinite(A.g.atts[fa].getf(v, c));
+  if (!finite) return false;
+  if (!ao.explicit_q && !gen_explicit_box(A.g.atts[fa], &ao)) return false;
+  }
+  sp->att_a = fa;
+  add_tag_attribute(&A);
+  const AttOpt ao_copy = A.o.opt_for(A.g, fa);  // (add_tag_attribute reallocates the option tables)
+  const AttOpt &ao = ao_copy;
+  // geometry B: subset of A's values + private values inside the box
+  const AttSpec &aa = A.g.atts[fa];
+  CaseSpec &B = sp->b;
+  AttSpec pb;
+  pb.type = aa.type;
+  pb.dtype = draco::DT_FLOAT32;
+  pb.ncomp = aa.ncomp;
+  pb.unique_id = 3;
+  const int nshared = R(1, std::min<int>(static_cast<int>(aa.nvalues), 12));
+  const int npriv = R(0, 6);
+  sp->b_from_a.clear();
+  for (int i = 0; i < nshared; ++i) {
+    const uint32_t va = static_cast<uint32_t>(R(0, static_cast<int>(aa.nvalues) - 1));
+    sp->b_from_a.push_back(va);
+    pb.data.insert(pb.data.end(), aa.value(va), aa.value(va) + aa.stride());
+  }
+  for (int i = 0; i < npriv; ++i) {
+    sp->b_from_a.push_back(0xffffffffu);
+    for (int c = 0; c < aa.ncomp; ++c) {
+      const float x = ao.origin[c] + ao.range * (static_cast<float>(R(0, 1024)) / 1024.f);
+      const float xx = std::min(std::max(x, ao.origin[c]), ao.origin[c] + ao.range);
+      put_scalar(pb.data, draco::DT_FLOAT32, 0, (xx - ao.origin[c] <= ao.range) ? xx : ao.origin[c]);
+    }
+  }
+  pb.nvalues = static_cast<uint32_t>(sp->b_from_a.size());
+  B.g.is_mesh = P(55);
+  if (B.g.is_mesh) {
+    const int nf = R(1, 14);
+    std::map<uint32_t, uint32_t> dummy;
+    B.g.npoints = pb.nvalues;
+    for (int f = 0; f < nf * 3; ++f) B.g.faces.push_back(static_cast<uint32_t>(R(0, static_cast<int>(pb.nvalues) - 1)));
+    pb.identity = 1;
+  } else {
+    B.g.npoints = pb.nvalues + static_cast<uint32_t>(R(0, 4));
+    pb.identity = 0;
+    pb.map.resize(B.g.npoints);
+    for (uint32_t p = 0; p < B.g.npoints; ++p) pb.map[p] = p < pb.nvalues ? p : static_cast<uint32_t>(R(0, static_cast<int>(pb.nvalues) - 1));
+  }
+  // B's quantized attribute must be usable as geometry: POSITION type is required for meshes
+  if (pb.type != GeometryAttribute::POSITION) {
+    AttSpec pos;
+    pos.type = GeometryAttribute::POSITION;
+    pos.dtype = draco::DT_INT16;
+    pos.ncomp = 3;
+    pos.unique_id = 9;
+    pos.identity = 1;
+    pos.nvalues = B.g.npoints;
+    for (uint32_t p = 0; p < B.g.npoints; ++p)
+      for (int c = 0; c < 3; ++c) put_scalar(pos.data, draco::DT_INT16, R(-50, 50), 0);
+    B.g.atts.push_back(pb);
+    B.g.atts.push_back(pos);
+  } else {
+    B.g.atts.push_back(pb);
+  }
+  B.o.api = P(50);
+  B.o.method = W({40, 25, 35}) - 1;
+  B.o.eb_method = W({64, 18, 18}) == 0 ? -1 : (P(50) ? 0 : 2);
+  if (P(70)) B.o.enc_speed = B.o.dec_speed = R(0, 10);
+  B.o.per_type.resize(5);
+  B.o.per_att.resize(B.g.atts.size());
+  AttOpt bo = ao;
+  bo.pred = kPredUnset;
+  if (P(30)) bo.pred = pick({-2, 0, 1, 4});
+  B.o.per_att[0] = bo;
+  B.o.per_type[pb.type] = bo;
+  add_tag_attribute(&B);
+  return true;
+}
+
 static std::string run_mode_inner(const std::string &mode, const CaseSpec &cs, const std::vector<std::string> &classes) {
+  if (mode == "c10") return run_c10(cs, classes);
+  if (mode == "c04") return run_c04(cs, classes);
   if (mode == "c01") return run_roundtrip(cs, 0, classes);
   if (mode == "c09") return run_roundtrip(cs, 9, classes);
   return "unknown mode " + mode;
@@ -210,6 +691,12 @@ static GenCfg cfg_for(const std::string &mode) {
     c.seam_focus = true;
     c.mesh_pct = 80;
   }
+  if (mode == "c10" || mode == "c04") {
+    c.lossy_focus = true;
+    c.quant_pct = 80;
+    c.mesh_pct = 60;
+  }
+  if (mode == "c04") c.max_extra_atts = 3;
   return c;
 }
 
@@ -218,11 +705,26 @@ int main(int argc, char **argv) {
   Harness h;
   h.run = [&](const std::string &mode) {
     std::vector<std::string> classes;
+    if (mode == "c12") {
+      C12Spec sp;
+      if (!gen_c12(&sp, &classes)) {
+        count("generator_rejected_no_explicit_box");
+        return std::string();
+      }
+      set_case(mode, to_tokens(sp), sp.a.g.npoints <= 100 ? "{\"A\":" + describe_case(sp.a) + ",\"B\":" + describe_case(sp.b) + "}" : std::string());
+      return guarded([&] { return run_c12(sp); });
+    }
     CaseSpec cs = gen_case(cfg_for(mode), &classes);
+    if (mode == "c04") add_tag_attribute(&cs);
     set_case(mode, to_tokens(cs), cs.g.npoints <= 200 ? describe_case(cs) : std::string());
     return run_mode(mode, cs, classes);
   };
   h.replay = [&](const std::string &mode, const std::vector<int64_t> &t) {
+    if (mode == "c12") {
+      C12Spec sp;
+      if (!from_tokens(t, &sp)) return std::string("bad replay tokens");
+      return guarded([&] { return run_c12(sp); });
+    }
     CaseSpec cs;
     if (!from_tokens(t, &cs)) return std::string("bad replay tokens");
     return run_mode(mode, cs, {});
@@ -234,6 +736,21 @@ int main(int argc, char **argv) {
         "seams, isolated points) x option specs (API, method, sub-method, speeds, quantization, forced prediction, "
         "built-in compression, split-on-seams); non-trivial = encode succeeded and (mesh with >= 2 attributes or two "
         "faces sharing an edge | point cloud with >= 2 distinct points); distinct by spec hash";
+  } else if (mode == "c10") {
+    stats().rule =
+        "same generator, every case with >= 1 quantized float attribute; each stream decoded normally and with the "
+        "generated skip set, the full set and each single lossy type (thorough: all 32 subsets); non-trivial = the skip "
+        "set selects >= 1 attribute that carries a transform; distinct by spec hash";
+  } else if (mode == "c04") {
+    stats().rule =
+        "same generator, every case with >= 1 quantized float32 attribute (1..8 components, auto or explicit box, all "
+        "methods) plus a uint32 tag attribute for the input<->decoded correspondence; non-trivial = a quantized "
+        "attribute with >= 2 distinct decoded values; distinct by spec hash";
+  } else if (mode == "c12") {
+    stats().rule =
+        "pairs (A,B): A from the shared generator with one explicitly quantized float attribute, B a separately "
+        "generated mesh / point cloud holding a subset of A's coordinates plus private ones inside the same box, "
+        "encoded with independent method / speed / API; non-trivial = >= 2 shared coordinates decoded on both sides";
   } else if (mode == "c09") {
     stats().rule =
         "same generator weighted towards seams / non-manifold / degenerate / isolated points with tracking on; "
